@@ -25,7 +25,7 @@ RULE = (
     "Distinct = distinct (text, history)."
 )
 ASSUMPTIONS = [
-    "transform-like blocks outside the nine list paths (x64 transform, variant blocks, http-get client id/output ...) are judged representation-tolerantly: every written item exactly once under its path, either as (keyword, bytes) or as keyword-suffixed key",
+    "transform-like blocks outside the ten list paths (stage transforms, variant blocks, and the data-transform positions that only the library's grammar, not Cobalt Strike, allows: http-get client id/output ...) are judged representation-tolerantly: every written item exactly once under its path, either as (keyword, bytes) or as keyword-suffixed key",
     "option and pair values are reported as written (raw literal text); list-path arguments decoded to bytes",
     "builder cases use printable values without quotes/backslashes (literal spelling is C12's subject)",
 ]
@@ -34,6 +34,7 @@ REQUIRED_MONITORS = ["dict.model", "history.tracks", "builder.equal"]
 LIST_PATHS = {
     "stage.transform-x86.header", "process-inject.transform-x86", "process-inject.execute", "http-post.server.output", "http-post.client.id",
     "http-post.client.output", "http-stager.server.output", "http-get.client.metadata", "http-get.server.output",
+    "process-inject.transform-x64",  # the sibling of process-inject.transform-x86: same block kind, same representation
 }
 TRANSFORM_RULES = {"transform_statement", "termination_statement", "stage_transform", "execute_options"}
 
@@ -246,6 +247,7 @@ def check_case(case, ctx):
         try:
             prof = c2p.C2Profile.from_text(case["text"]) if case["start"] == "parsed" else c2p.C2Profile()
             stmts = list(case["statements"]) if case["start"] == "parsed" else []
+            handles = {}
             d0 = prof.as_dict()
             r = compare_dict(d0, stmts)
             if r:
@@ -261,6 +263,7 @@ def check_case(case, ctx):
                     for k, v in mod[2]:
                         blk.set_option(k, v)
                     prof.set_config_block("dns_beacon", blk)
+                    handles["dns"] = blk
                     for k, v in mod[2]:
                         stmts.append({"path": ("dns-beacon",), "kw": [k], "args": [v], "vals": [v.encode()], "rule": "x"})
                 elif kind == "tree":
@@ -290,6 +293,51 @@ def check_case(case, ctx):
                         first = next(st for st in stmts if st["path"] == () and st["kw"] == [name])
                         first["args"] = [mod[1]]
                         first["vals"] = [mod[1].encode()]
+                elif kind == "mutate_view":
+                    # the caller plays with the dictionary it was given: the profile has not changed, later views must not either
+                    d = prof.as_dict()
+                    how = mod[1]
+                    if d:
+                        k = sorted(d)[mod[2] % len(d)]
+                        if how == "pop" and d[k]:
+                            d[k].pop()
+                        elif how == "del":
+                            del d[k]
+                        elif how == "reverse":
+                            d[k].reverse()
+                            d[k].append("x")
+                    if how == "add":
+                        d["bogus.key"] = ["x"]
+                elif kind == "handle_block":
+                    # a builder block attached earlier is modified through the handle the caller kept
+                    blk = handles.get("dns")
+                    if blk is None:
+                        blk = c2p.DnsBeaconBlock(dns_idle="1.2.3.4")
+                        prof.set_config_block("dns_beacon", blk)
+                        handles["dns"] = blk
+                        stmts.append({"path": ("dns-beacon",), "kw": ["dns_idle"], "args": ["1.2.3.4"], "vals": [b"1.2.3.4"], "rule": "x"})
+                        for _ in range(mod[3]):  # reads between attaching and modifying
+                            r = compare_dict(prof.as_dict(), stmts)
+                            if r:
+                                ctx.violation("history.tracks", f"after attaching a block: {r}", case)
+                                return
+                            if mod[3] > 1:
+                                prof.as_text()
+                    blk.set_option(mod[1], mod[2])
+                    idx = max((i for i, st in enumerate(stmts) if st["path"] and st["path"][0] == "dns-beacon"), default=len(stmts) - 1)
+                    stmts.insert(idx + 1, {"path": ("dns-beacon",), "kw": [mod[1]], "args": [mod[2]], "vals": [mod[2].encode()], "rule": "x"})
+                elif kind == "handle_tree":
+                    # a subtree handle taken from profile.tree BEFORE dictionary/text reads is modified after them
+                    target = next((t for t in reversed(prof.tree.children) if isinstance(t, Tree) and t.data in ("dns_beacon", "stage", "post_ex", "process_inject")), None)
+                    if target is not None:
+                        for _ in range(mod[3]):
+                            prof.as_dict()
+                            prof.as_text()
+                        kwmap = {"dns_beacon": ("dns-beacon", "dns_ttl"), "stage": ("stage", "obfuscate"), "post_ex": ("post-ex", "pipename"), "process_inject": ("process-inject", "min_alloc")}
+                        blk, kw = kwmap[str(target.data)]
+                        target.children.append(Tree(kw, [Tree("string", [Token("STRING", '"' + mod[1] + '"')])]))
+                        idx = max((i for i, st in enumerate(stmts) if st["path"] and st["path"][0] == blk), default=len(stmts) - 1)
+                        stmts.insert(idx + 1, {"path": (blk,), "kw": [kw], "args": [mod[1]], "vals": [mod[1].encode()], "rule": "x"})
                 elif kind == "transform":
                     gb = c2p.HttpGetBlock()
                     gb.set_config_block("client", c2p.HttpOptionsBlock(metadata=c2p.DataTransformBlock(steps=["base64", ("prepend", mod[1]), ("header", "Cookie")])))
@@ -390,6 +438,48 @@ def check_case(case, ctx):
                 ctx.violation("builder.equal", f"{name} profile reports {d!r} for builder arguments {want!r}", case)
                 return
         ctx.ok(fp=("bb", b1, b2, b3, b4), case=case, classes=("builder:bytes",))
+    elif op == "builder_edge":
+        # boundary forms of the builder: the '# dns_resolver' pseudo statement (a comment for every reader of the text)
+        # and data-transform blocks without any statement
+        ctx.mon("builder.equal")
+        which, v = case["which"], case["vals"]
+        try:
+            built = c2p.C2Profile()
+            if which == "dnscomment":
+                kw = {"comment_dns_resolver": v[0]}
+                if case.get("more"):
+                    kw["dns_idle"] = v[1]
+                built.set_option("sleeptime", v[2])
+                built.set_config_block("dns_beacon", c2p.DnsBeaconBlock(**kw))
+                want = [{"path": (), "kw": ["sleeptime"], "args": [v[2]], "vals": [v[2].encode()], "rule": "value"}]
+                if case.get("more"):
+                    want.append({"path": ("dns-beacon",), "kw": ["dns_idle"], "args": [v[1]], "vals": [v[1].encode()], "rule": "x"})
+                text = None
+            else:
+                steps = None if which == "emptydt-none" else []
+                built.set_config_block("http_get", c2p.HttpGetBlock(uri=v[0], server=c2p.HttpOptionsBlock(header=[(v[1], v[2])], output=c2p.DataTransformBlock(steps=steps))))
+                want = [{"path": ("http-get",), "kw": ["uri"], "args": [v[0]], "vals": [v[0].encode()], "rule": "x"},
+                        {"path": ("http-get", "server"), "kw": ["header"], "args": [v[1], v[2]], "vals": [v[1].encode(), v[2].encode()], "rule": "x"}]
+                text = f'http-get {{ set uri "{v[0]}"; server {{ header "{v[1]}" "{v[2]}"; output {{ }} }} }}'
+            d1 = built.as_dict()
+            t1 = built.as_text()
+            reparsed = c2p.C2Profile.from_text(t1)
+            d2 = reparsed.as_dict()
+            parsed = c2p.C2Profile.from_text(text) if text else None
+        except Exception as e:  # noqa: BLE001
+            ctx.violation("builder.equal", f"builder edge '{which}' {v!r}: {type(e).__name__}: {str(e)[:200]}", case)
+            return
+        r = compare_dict(d1, want) or compare_dict(d2, want)
+        if r:
+            ctx.violation("dict.model", f"builder edge '{which}': {r}", case)
+            return
+        if parsed is not None and (parsed.tree != built.tree or parsed.as_text() != t1 or parsed.as_dict() != d1):
+            ctx.violation("builder.equal", f"builder edge '{which}': built profile differs from the parsed text {text!r} (built tree {built.tree!r:.300})", case)
+            return
+        if which == "dnscomment" and f'# dns_resolver "{v[0]}";' not in t1:
+            ctx.violation("builder.equal", f"the resolver comment is missing from the text: {t1!r:.200}", case)
+            return
+        ctx.ok(fp=("edge", which, tuple(v), case.get("more")), case=case, classes=(f"builder:{which}",))
     elif op == "gate":
         ctx.mon("builder.equal")
         names = case["names"]
@@ -451,9 +541,15 @@ def run_shard(shard, ctx):
                     mods.append(("tree", rng.choice(LANG["OPTION"]), _val(rng), rng.choice([1, 2])))
                 elif r < 0.7:
                     mods.append(("nested", _val(rng), None, rng.choice([1, 2])))
-                elif r < 0.78:
+                elif r < 0.755:
                     mods.append(("replace", _val(rng), None, rng.choice([1, 2])))
-                elif r < 0.88:
+                elif r < 0.82:
+                    mods.append(("mutate_view", rng.choice(["pop", "del", "reverse", "add"]), rng.randrange(0, 50), rng.choice([1, 2])))
+                elif r < 0.86:
+                    mods.append(("handle_block", rng.choice(["dns_ttl", "maxdns", "dns_sleep", "dns_stager_prepend"]), _val(rng), rng.choice([0, 1, 2]), rng.choice([1, 2])))
+                elif r < 0.89:
+                    mods.append(("handle_tree", _val(rng), None, rng.choice([1, 2]), rng.choice([1, 2])))
+                elif r < 0.94:
                     mods.append(("block", "dns_beacon", [(rng.choice(["dns_idle", "maxdns", "beacon", "dns_ttl"]), _val(rng)) for _ in range(rng.randrange(1, 4))], rng.choice([1, 2])))
                 else:
                     mods.append(("transform", _val(rng), None, rng.choice([1, 2])))
@@ -471,6 +567,9 @@ def run_shard(shard, ctx):
             if i < 4:
                 vals[i] = [b"\\'", b"'\\", b"\\\"", b"\\'\\'"][i]
             check_case({"op": "builder_bytes", "vals": vals}, ctx)
+        for i in range(12):
+            check_case({"op": "builder_edge", "which": ["dnscomment", "emptydt-none", "emptydt-list"][i % 3], "more": i % 2 == 0,
+                        "vals": [_val(rng) or "x" for _ in range(3)]}, ctx)
         for _ in range(12):
             check_case({"op": "kwargs", "vals": [_val(rng) or "x" for _ in range(13)]}, ctx)
         names = [_kws(a)[0] for a in LANG["beacon_gate_options"]]
@@ -485,7 +584,7 @@ def run_shard(shard, ctx):
 LEVEL_TEXT = (
     "Exploration against a reference dictionary: for hundreds (thorough: ~20 000) of generated profiles the dictionary that "
     "follows from the generator's model (block path incl. variant, keyword, values in source order, pairs as 2-tuples, "
-    "decoded bytes on the nine list paths) is compared with as_dict(); modification histories interleave set_option / "
+    "decoded bytes on the ten list paths) is compared with as_dict(); modification histories interleave set_option / "
     "set_config_block / direct tree edits with reads and require the view to track the model after every step; random "
     "builder programs over every block kind are replayed through the ConfigBlock API and compared (tree, text, dictionary) "
     "with the same profile parsed from reference-rendered text."
